@@ -189,7 +189,7 @@ func c11Known(c *fw.Ctx, ts []c11Codec) map[string]bool {
 
 func runC11(c *fw.Ctx) {
 	res := c.Res
-	res.Rule = "for every type with an encoder/decoder pair in types, consensus, gateway, rhp/v2, rhp/v3, rhp/v4: seeded reflection-generated values (boundary currencies 0/2^64/max, nil vs empty slices, zero/max timestamps, all resolution kinds, policies nested up to 32 deep, every instruction kind; plus, for every byte-string / string / small-element slice field of every type, sizes n-1, n, n+1, 2n, 2n+1 around the Encoder's and Decoder's internal buffer sizes n (generated facts) and multi-KiB sizes); per value: round trip up to the documented normalisations, byte-identical re-encoding, determinism, injectivity, every proper prefix fails (all prefixes up to 400 bytes, sampled beyond), single-field mutation changes the bytes; the encoding and a sample of prefixes are also decoded and re-encoded by the Lean schema generated from the method bodies. A case is non-trivial when the encoding is non-empty; distinct by (type, bytes)."
+	res.Rule = "for every type with an encoder/decoder pair in types, consensus, gateway, rhp/v2, rhp/v3, rhp/v4: seeded reflection-generated values (boundary currencies 0/2^64/max, nil vs empty slices, zero/max timestamps, all resolution kinds, policies nested up to 32 deep, every instruction kind; plus, for every byte-string / string / small-element slice field of every type, sizes n-1, n, n+1, 2n, 2n+1 around the Encoder's and Decoder's internal buffer sizes n (generated facts) and multi-KiB sizes); plus a stream of REAL blocks from the chain simulator (modes v2, mixed, legacy) and directed blocks referencing one accumulator leaf two and three times, as V2Block / V2BlockData and inside RPCSendV2Blocks / RPCSendCheckpoint / RPCRelayV2BlockOutline / V2BlockOutline); per value: round trip up to the documented normalisations, byte-identical re-encoding, determinism, injectivity, every proper prefix fails (all prefixes up to 400 bytes, sampled beyond), single-field mutation changes the bytes; the encoding and a sample of prefixes are also decoded and re-encoded by the Lean schema generated from the method bodies. A case is non-trivial when the encoding is non-empty; distinct by (type, bytes)."
 	ts := c11Types()
 	if c.Replay != "" {
 		c11Replay(c, ts)
@@ -204,6 +204,7 @@ func runC11(c *fw.Ctx) {
 		c11Type(c, g, ct, perType, known[ct.lean], model)
 		c11Blobs(c, g, ct, consts, known[ct.lean], model)
 	}
+	c11Chain(c, g, known, model)
 	res.CountN("types", len(ts))
 	res.CountN("types-with-generated-schema", len(known))
 	c11Compare(c, model)
@@ -298,7 +299,7 @@ func c11CheckValue(c *fw.Ctx, g *c11Gen, ct c11Codec, p any, modelled bool, mode
 			c11Violate(c, "c11-roundtrip:"+ct.goName, "decoding a valid encoding leaves bytes unread", ct, b, "0 bytes left", fmt.Sprint(o.rest))
 		}
 		if !c11NormEq(reflect.ValueOf(p).Elem(), reflect.ValueOf(o.p).Elem()) {
-			c11Violate(c, "c11-roundtrip:"+ct.goName, "decode(encode(v)) differs from v beyond the documented normalisations", ct, b,
+			c11Violate(c, "c11-roundtrip:"+ct.goName, "decode(encode(v)) differs from v beyond the documented normalisations at "+c11DiffPath(reflect.ValueOf(p).Elem(), reflect.ValueOf(o.p).Elem(), "v"), ct, b,
 				fmt.Sprintf("%+v", reflect.ValueOf(p).Elem().Interface()), fmt.Sprintf("%+v", reflect.ValueOf(o.p).Elem().Interface()))
 		}
 		// re-encode
